@@ -31,11 +31,32 @@ CHECK = Check(
     ],
     assumptions=[
         "rounded theorems (OW.Props.Rounded.C13): initial volume >= 0 and full-supply volume >= 0; statements are about runs that return",
-        "all theorems: for runs of the model that return .ok (a Go panic — drawing down below zero at the 6 s floor, a "
-        "single-knot table — is .error and is reproduced as such by the correspondence)",
-        "storage_balance: Δt > 0; sub_steps_sum: Δt ≥ 0; volume_nonneg: initial volume ≥ 0 and full-supply volume ≥ 0",
+        "ALL theorems except run_ok_of*/draw_down_panics/terminates* are CONDITIONAL on `run … = .ok r`: a Go panic is .error and is "
+        "reproduced as such by the correspondence. In particular 'V >= 0' holds for runs that return BECAUSE the code does not return "
+        "otherwise: when a trial volume is negative at the 6 s floor of the sub-step the code ends the process "
+        "(panic(\"testVol < 0.0 and subtimestep <= MIN_TIMESTEP_SECONDS…\"), storage.go) instead of limiting the release or the "
+        "evaporation to the water present. This happens INSIDE the property's quantifier (monotone tables, drawing down to empty): "
+        "proved in general by draw_down_panics (net rate inflow − release(V) + netFlux·area(V) negative and draining V within "
+        "min(Δt, 6 s)) with two examples — flat maximum release 5/5 m³/s, 3 m³ left, demand 1; area 100 m² at the empty storage, "
+        "PET 5 mm, empty reservoir. C13's statement does not speak about crashes (C17's does); recorded as an observation in "
+        "DESIGN §0.4",
+        "WHEN a run returns is proved: run_ok_of — well-formed tables (Total; total_of_wellFormed: >= 2 knots, curve ends = first/last "
+        "volume, value tables at least as long as the volume table; no ordering needed), full-supply volume >= 0, V0 >= 0, "
+        "0 < Δt <= 6k, Δt <= 6·2^n, fuel > k / > n, and every timestep's inputs Safe (at every volume v >= 0 both 'trial volume "
+        "negative' tests pass for every sub-step of at most 6 s and every value of the area table). Two instances on tables and "
+        "inputs alone: run_ok_of_release_limited (release(u) >= 0 and release(u)·6 s <= max(u,0) at every volume — e.g. a maximum-"
+        "release curve vanishing at the empty storage at least as fast as V/6 s — and inflow + netFlux·a >= 0 for every area value a: "
+        "rain >= evaporation or enough inflow) and run_ok_of_net_gain (inflow − q + netFlux·a >= 0 for all release values q and "
+        "area values a). Net evaporation from a positive area during draw-down is covered only through the abstract condition Safe",
+        "storage_balance, trace_tie, reported_outflow_*: Δt > 0; sub_steps_sum: Δt ≥ 0; volume_nonneg: initial volume ≥ 0 and "
+        "full-supply volume ≥ 0",
         "release_between: stated for whatever the two release curves evaluate to at the two volumes of the sub-step, "
-        "assuming min ≤ max at those volumes (the release rule clamps the demand only if the curves are ordered)",
+        "assuming min ≤ max at those volumes (the release rule clamps the demand only if the curves are ordered). The second "
+        "volume is the TRIAL volume (start volume advanced with the release of the start volume, SubStepOK.trialVol_eq), in general "
+        "not a volume the reservoir holds",
+        "reported_outflow_between: Total tables, minimum-release curve >= m and maximum-release curve <= M wherever evaluated, "
+        "curves ordered, spill capacity minRelease[last] >= 0; reported_outflow_eq_demand: demand between the two curves wherever "
+        "evaluated and no sub-step spills",
         "terminates: Δt ≤ 6·k and Δt ≤ 6·2^n with fuel > k (outer) and > n (inner); terminates_driver_fuel: Δt ≤ 86400 with "
         "the driver's fuel (400000 / 4000); terminates_exists: any Δt",
     ],
@@ -43,7 +64,16 @@ CHECK = Check(
         "final_level_area states level/area = cappedPiecewise(final volume, table); that cappedPiecewise is the linear "
         "interpolant between the bracketing knots is property C18 (Piecewise), not re-proved here",
         "the outflow bounds of the ORACLE are an envelope over the volumes reachable in a timestep (the outputs do not "
-        "expose sub-steps); the exact per-sub-step statement is the theorem release_between over the model's ghost trace",
+        "expose sub-steps); the exact per-sub-step statements are the theorems release_between / spill_only_above_full over the "
+        "model's ghost trace, tied to the reported series by trace_tie (chained volumes V → V', Σ sub = Δt, "
+        "outflow·Δt = Σ(avgOutflow·sub + excess)) and summarised on the reported outflow by reported_outflow_between / "
+        "reported_outflow_eq_demand",
+        "per-cell table lengths: NO theorem — covered by family W only (several cells with tables of different length in one "
+        "vectorised Run, each compared bit for bit with its single-cell run and with the wrapper model); the theorems are about "
+        "one cell's tables after slicing",
+        "no-panic (run_ok_of): the table-level instances cover draw-down by RELEASE (run_ok_of_release_limited) and filling "
+        "(run_ok_of_net_gain); draw-down by net EVAPORATION from a positive area has no table-level instance (the area is evaluated "
+        "at the mid-volume of the trial, a bound needs monotone area tables = C18 interpolation facts) — only the abstract Safe",
     ],
 )
 
@@ -54,7 +84,10 @@ META = dict(
          "(rainfallVolume−evaporationVolume)·Δt with the four REPORTED series; volumes never negative; final level/area are the "
          "table values at the final volume; every accepted average release lies between the release curves at the sub-step's "
          "two volumes and equals the demand when it lies between them; spill only above the full-supply volume and never below "
-         "it; and termination (enough fuel always exists because of the 6 s floor; the driver's fuel suffices for Δt ≤ 86400). "
+         "it; the ghost trace of sub-steps is tied to the reported series (chained volumes, outflow·Δt = Σ(avgOutflow·sub + excess)) with "
+         "corollaries on the reported outflow; termination (enough fuel always exists because of the 6 s floor; the driver's fuel "
+         "suffices for Δt ≤ 86400); and WHEN a run returns at all (run_ok_of: well-formed tables + 6 s safety of the inputs) — the "
+         "code panics instead of limiting the loss when a reservoir is drawn down to empty (draw_down_panics, observation). "
          "The model is tied to the code on every run by bit-exact comparison of the real Storage run with the compiled model "
          "(monotone tables of 2..8 knots, filling to spill, drawing down to empty, zero/large demand, rain/PET, malformed "
          "configurations, panics), and the property's predicates are evaluated on the real outputs.",
